@@ -105,11 +105,16 @@ PosOf(p, n) == CHOOSE i \in ParPos(p) : p.segs[i].s = n
 
 \* What RoutePattern::parse accepts, structurally (M): raw parameter names are distinct; a pattern
 \* without any segment is accepted only as "scheme:" (ParseState::AfterScheme at the end).
-WFM(p) == /\ \A i, j \in ParPos(p) : i # j => p.segs[i].s # p.segs[j].s
-          /\ N(p) = 0 => (p.sc # "" /\ ~p.abs)
+\* The duplicate scan runs over ALL segments, the final one (pushed by ParseState::end) included.
+DistinctNames(p) == \A i, j \in ParPos(p) : i # j => p.segs[i].s # p.segs[j].s
+SegmentsOK(p) == N(p) = 0 => (p.sc # "" /\ ~p.abs)
+WFM(p) == DistinctNames(p) /\ SegmentsOK(p)
 
-AllPatterns == {p \in [sc : Schemes, abs : AbsFlags,
-                       segs : UNION {[1..n -> SegSet] : n \in 0..MaxSegs}] : WFM(p)}
+\* every pattern text within the bounds, a parameter name repeated at any pair of positions included
+AllTexts == {p \in [sc : Schemes, abs : AbsFlags,
+                    segs : UNION {[1..n -> SegSet] : n \in 0..MaxSegs}] : SegmentsOK(p)}
+AllPatterns == {p \in AllTexts : DistinctNames(p)}       \* those parse accepts
+DupTexts    == AllTexts \ AllPatterns                     \* those parse must reject (ParseError)
 
 \* A RouteUri has at least one segment and the first one is not empty ("/", "//a" do not parse).
 UriLegal(u) == /\ SchemeLegal(u.sc)
@@ -244,7 +249,14 @@ FindRoute == /\ built = "accepted"
                    lastAct' = [k |-> "find", u |-> u, all |-> Matching(routes, u), first |-> FirstMatch(routes, u)]
              /\ UNCHANGED <<routes, built>>
 
+\* RoutePattern::parse on a text that repeats a parameter name: ParseError, no route is added.  The state only
+\* remembers the text (in `routes`, for the dump and the law below); nothing else can follow.
+ParseError(p) == /\ built = "no" /\ routes = <<>>
+                 /\ routes' = <<p>> /\ built' = "parse-error"
+                 /\ lastAct' = [k |-> "parse-error", p |-> p]
+
 Next == \/ \E p \in AllPatterns : AddRoute(p)
+        \/ \E p \in DupTexts : ParseError(p)
         \/ Build
         \/ FindRoute
 
@@ -255,9 +267,11 @@ Spec == Init /\ [][Next]_vars
 (* evaluated where the table holds one pattern, pair laws where it holds   *)
 (* two, table laws after build().                                          *)
 
-TypeOK == /\ built \in {"no", "accepted", "rejected"}
+Accepted == built # "parse-error"     \* routes holds parsed patterns (otherwise: one rejected text)
+TypeOK == /\ built \in {"no", "accepted", "rejected", "parse-error"}
           /\ Len(routes) <= MaxRoutes
-          /\ \A i \in 1..Len(routes) : routes[i] \in AllPatterns
+          /\ Accepted => \A i \in 1..Len(routes) : routes[i] \in AllPatterns
+          /\ ~Accepted => (Len(routes) = 1 /\ routes[1] \in DupTexts)
 
 \* value assignments used for apply: by parameter position
 ValRows == {<<"v", "v", "v">>, <<"v", "w", "u">>, <<"w", "a", "v">>, <<"u", "v", "w">>, <<"t", "v", "t">>, <<"r", "v", "r">>}
@@ -268,15 +282,21 @@ IncompleteMaps(p) == {[n \in Names(p) \ {x} |-> "v"] : x \in Names(p)}
 
 \* L1  unapply(apply(m)) = m for every complete m
 LawRoundTrip ==
-    Len(routes) = 1 =>
+    (Accepted /\ Len(routes) = 1) =>
         LET p == routes[1] IN
         \A m \in CompleteMaps(p) : Complete(p, m) /\ (RoundTripOK(p, m) \/ Excused(p))
 
 \* apply refuses exactly the incomplete maps and names what is missing
 LawApplyMissing ==
-    Len(routes) = 1 =>
+    (Accepted /\ Len(routes) = 1) =>
         LET p == routes[1] IN
         \A m \in IncompleteMaps(p) : ~Complete(p, m) /\ Len(MissingM(p, m)) >= 1
+
+\* the canonical URI with a DIFFERENT value at every parameter position
+PosVals == <<"v", "w", "u", "a", "t", "r">>
+CanonDistinct(p) == [sc |-> p.sc, abs |-> p.abs,
+                     segs |-> [i \in 1..N(p) |-> IF Lit(p.segs[i]) THEN LegalForm(p.segs[i].s)
+                                                 ELSE EncOf[PosVals[((i - 1) % 6) + 1]]]]
 
 \* URIs synthesised from a pattern: the canonical one with one segment replaced by every symbol,
 \* one segment more / fewer, the other schemes, the other absolute flag, other spellings of values
@@ -284,7 +304,7 @@ Replace(u, i, s) == [u EXCEPT !.segs[i] = s]
 UrisOf(p) ==
     IF N(p) = 0 THEN {[sc |-> p.sc, abs |-> a, segs |-> <<s>>] : a \in BOOLEAN, s \in {"a", "v"}}
     ELSE LET c == Canon(p, "v") IN
-         {c, Canon(p, "we"), Canon(p, "wl")}
+         {c, Canon(p, "we"), Canon(p, "wl"), CanonDistinct(p)}
          \cup {Replace(c, i, s) : i \in 1..N(p), s \in USyms}
          \cup {[c EXCEPT !.segs = Append(c.segs, s)] : s \in {"a", "v", "e"}}
          \cup (IF N(p) > 1 THEN {[c EXCEPT !.segs = SubSeq(c.segs, 1, N(p) - 1)]} ELSE {})
@@ -295,16 +315,36 @@ WellFormedUris(p) == {u \in UrisOf(p) : UriLegal(u)}
 \* L2  a parameter never binds an empty segment; the bindings are a function of (pattern, URI)
 \*     and cover exactly the parameters
 LawNoEmptyBinding ==
-    Len(routes) = 1 =>
+    (Accepted /\ Len(routes) = 1) =>
         LET p == routes[1] IN
         \A u \in WellFormedUris(p) :
             Match(p, u) => /\ \A n \in Names(p) : BindP(p, u)[n] # ""
                            /\ DOMAIN BindP(p, u) = Names(p)
                            /\ BindM(p, u) = BindP(p, u)
 
+\* L2'  the other direction of the inverse: apply(unapply(u)) regenerates u - segment by segment the same
+\*      decoded text, the same absolute flag (the spelling may become the canonical one)
+SameText(u1, u2) == /\ u1.abs = u2.abs /\ Len(u1.segs) = Len(u2.segs)
+                    /\ \A i \in 1..Len(u1.segs) : SymDec[u1.segs[i]] = SymDec[u2.segs[i]]
+LawRegenerate ==
+    (Accepted /\ Len(routes) = 1) =>
+        LET p == routes[1] IN
+        \A u \in WellFormedUris(p) : Match(p, u) => SameText(ApplyM(p, BindM(p, u)), u)
+
+\* ... which is why a repeated parameter name must be a parse error: such a text, taken as a pattern, matches
+\* a URI with two different values at the two positions but keeps only one of them (the later position
+\* overwrites the earlier in the map), so apply cannot regenerate the URI.
+BindLast(p, u) == [n \in Names(p) |->
+                     SymDec[u.segs[CHOOSE i \in ParPos(p) : p.segs[i].s = n /\ \A j \in ParPos(p) : p.segs[j].s = n => j <= i]]]
+LawDuplicateNamesDoNotInvert ==
+    ~Accepted =>
+        LET p == routes[1] u == CanonDistinct(p) IN
+        /\ ~DistinctNames(p)
+        /\ Match(p, u) /\ ~SameText(ApplyM(p, BindLast(p, u)), u)
+
 \* L3  whenever some URI is matched by two patterns, are_ambiguous reports them (both orders)
 LawAmbiguityComplete ==
-    Len(routes) = 2 =>
+    (Accepted /\ Len(routes) = 2) =>
         LET p == routes[1] q == routes[2] IN
         /\ OverlapS(p, q) => AmbM(p, q)
         /\ AmbM(p, q) = AmbM(q, p)
@@ -312,7 +352,7 @@ LawAmbiguityComplete ==
 
 \* the witness is a well-formed URI that both match, exactly when they overlap
 LawWitness ==
-    Len(routes) = 2 =>
+    (Accepted /\ Len(routes) = 2) =>
         LET p == routes[1] q == routes[2] IN
         OverlapS(p, q) => /\ UriLegal(Witness(p, q)) \/ ~SchemeLegal(Witness(p, q).sc)
                           /\ Match(p, Witness(p, q)) /\ Match(q, Witness(p, q))
